@@ -42,11 +42,15 @@ Record variant : Type := mkVariant {
   (* the deferred finally evaluation drops its own (res, err) *)
   v_finally_result_dropped : bool;
   (* rangeFunc ends at once when from == to *)
-  v_range_eq_empty : bool
+  v_range_eq_empty : bool;
+  (* NOT a behaviour of the code as found: ifRuntime.Eval without the `if err == nil` around
+     the guard evaluation, so that a later guard overwrites the error of an earlier one
+     (kept as a switch to classify that regression in the correspondence check) *)
+  v_if_guard_error_overwritten : bool
 }.
 
-Definition unchanged : variant := mkVariant true true true true true.
-Definition repaired : variant := mkVariant false false false false false.
+Definition unchanged : variant := mkVariant true true true true true false.
+Definition repaired : variant := mkVariant false false false false false false.
 
 Definition mpre (t : trace) (r : gores) : gores :=
   match r with
@@ -117,6 +121,18 @@ Definition prologue (b : binder) (bound : bool) (e : errval) : trace :=
   | _ => [EvCaught (if bound then objtype e else EOther 0)]
   end.
 
+Definition errval_of (k : errk) : errval :=
+  match k with KUser t => RaisedErr t | KRuntime => RtErr TUnknownConstruct end.
+
+(* guardRuntime.Eval: (events, guardres, err); on an error res is false *)
+Definition mguard (g : guard) : trace * bool * option errval :=
+  match g with
+  | GBool b => ([], b, None)
+  | GEval n GTrue => ([EvMark n], true, None)
+  | GEval n GFalse => ([EvMark n], false, None)
+  | GEval n (GFail k) => ([EvMark n], false, Some (errval_of k))
+  end.
+
 Section Exec.
   Variable V : variant.
   Variable ex : stmt -> gores.          (* child.Runtime.Eval, one level less fuel *)
@@ -135,33 +151,52 @@ Section Exec.
 
   (* ifRuntime.Eval over (guard, block) child pairs; the parser turns `else` into a
      guard that is the constant true *)
-  Fixpoint mif_pairs (brs : list (bool * block)) : gores :=
+  (* [err] is the loop-carried error variable: `for offset ... { if err == nil { guardres, err =
+     guard.Eval ; if err == nil && guardres { return block.Eval } } } ; return nil, err` *)
+  Fixpoint mif_pairs (err : option errval) (brs : list (guard * block)) : gores :=
     match brs with
-    | [] => Some ([], None)
-    | (g, b) :: brs' => if g then mblock b else mif_pairs brs'
+    | [] => Some ([], err)
+    | (g, b) :: brs' =>
+      match err, v_if_guard_error_overwritten V with
+      | Some _, false => mif_pairs err brs'            (* if err == nil fails: nothing happens *)
+      | _, _ =>
+        match mguard g with
+        | (t, true, None) => mpre t (mblock b)
+        | (t, _, e) => mpre t (mif_pairs e brs')
+        end
+      end
     end.
 
-  Definition mif (brs : list (bool * block)) (els : option block) : gores :=
-    mif_pairs (brs ++ match els with Some b => [(true, b)] | None => [] end).
+  Definition mif (brs : list (guard * block)) (els : option block) : gores :=
+    mif_pairs None (brs ++ match els with Some b => [(GBool true, b)] | None => [] end).
 
   (* loopRuntime.Eval, NodeGUARD branch; the guard `c > 0` holds n times *)
-  Fixpoint mcond_loop (n : nat) (body : block) : gores :=
+  Fixpoint mcond_loop (n : nat) (fail : option (nat * errk)) (body : block) : gores :=
     match n with
-    | O => Some ([], None)                       (* guardres false *)
+    | O =>
+      match fail with
+      | None => Some ([], None)                  (* guardres false *)
+      | Some (m, k) => Some ([EvMark m], Some (errval_of k))   (* the guard returns an error *)
+      end
     | S n' =>
       match mblock body with
       | None => None
       | Some (t, e) =>
         match clear_type TContinueIteration e with
-        | None => mpre t (mcond_loop n' body)    (* guard evaluated again *)
-        | Some e' => Some (t, Some e')           (* for err == nil fails *)
+        | None => mpre t (mcond_loop n' fail body)   (* guard evaluated again *)
+        | Some e' => Some (t, Some e')               (* for err == nil fails *)
         end
       end
     end.
 
-  Definition mcond (n : nat) (body : block) : gores :=
-    if v_cond_loop_keeps_break V then mcond_loop n body
-    else mclear TEndOfIteration (mcond_loop n body).
+  Definition mcond (n : nat) (fail : option (nat * errk)) (body : block) : gores :=
+    if v_cond_loop_keeps_break V then mcond_loop n fail body
+    else mclear TEndOfIteration (mcond_loop n fail body).
+
+  (* handleIterator when the iterated expression returns an error that is not ErrIsIterator:
+     getIterator returns it, `for err == nil` is not entered, it is not ErrEndOfIteration *)
+  Definition msrc (n : nat) (k : errk) : gores :=
+    mclear TEndOfIteration (Some ([EvMark n], Some (errval_of k))).
 
   (* handleIterator: [next] is the iterator function getIterator built (state explicit),
      already passed through getIteratorValue (ErrIsIterator cleared); [n] bounds the number
@@ -354,8 +389,9 @@ Fixpoint mexec (V : variant) (fuel : nat) (s : stmt) : gores :=
     | Return v => Some ([], Some (RetVal v))
     | Break => Some ([], Some (RtErr TEndOfIteration))
     | Continue => Some ([], Some (RtErr TContinueIteration))
-    | If brs els => mif ex brs els
-    | LoopCond n body => mcond V ex n body
+    | If brs els => mif V ex brs els
+    | LoopCond n fail body => mcond V ex n fail body
+    | LoopSrc n k _ => msrc n k
     | LoopRange from to step body =>
       mrange V f (fun v => mpre [EvIter v] (mblock ex body)) from to step
     | LoopList xs body =>
